@@ -1,4 +1,4 @@
-import Holpy.C07.LexSteps
+import Holpy.C07.TypeLex
 /-
 C07 — `lex_print`: the model lexer reads the printed text of a skeleton back as the token list
 `printSkel` (for every table / ladder / terminal list satisfying `TextOK`).
@@ -6,10 +6,6 @@ C07 — `lex_print`: the model lexer reads the printed text of a skeleton back a
 namespace Holpy.C07
 
 variable {S : List (List Nat)} {T : Table} {L : Ladder}
-
-theorem Steps.cons_ws {b : List Nat} {tb : List Tok} {P : List Nat → Prop} (h : Steps S b tb P) : Steps S (32 :: b) tb P := by
-  have := Steps.append (S := S) steps_ws h (fun _ _ => trivial)
-  simpa using this
 
 /-- what may follow a printed symbol: a blank; an operand (if the spelling was checked for that); an identifier -/
 def AfterSym (T : Table) (bt bi : Bool) (rest : List Nat) : Prop :=
@@ -71,7 +67,7 @@ theorem spellTxt_mem_unary {o : Nat} (ho : o < T.ops.length) (har : (T.row o).ar
 /-- the lexer reads a bracketed or unbracketed operand text -/
 theorem lex_wrap (hlp : S.contains [40] = true) (hrp : S.contains [41] = true)
     (hsafeL : safeBeforeTerm T S [40] = true)
-    (hsafeR : ∀ t ∈ S, [41].isPrefixOf t = true → t = [41] ∨ isWs ((t.drop 1).headD 0) = false ∧ (t.drop 1).headD 0 ≠ 41 ∧ (t.drop 1).headD 0 ≠ 44)
+    (hsafeR : ∀ t ∈ S, [41].isPrefixOf t = true → t = [41] ∨ isWs ((t.drop 1).headD 0) = false ∧ (t.drop 1).headD 0 ≠ 41 ∧ (t.drop 1).headD 0 ≠ 44 ∧ (t.drop 1).headD 0 ≠ 58 ∧ (t.drop 1).headD 0 ≠ 46)
     {txt : List Nat} {toks : List Tok} (ht : Steps S txt toks Follow) (hs : ∀ rest, TextStart T (txt ++ rest)) (b : Bool) :
     Steps S (wrapT b txt) (wrap b toks) Follow ∧ ∀ rest, TextStart T (wrapT b txt ++ rest) := by
   cases b with
@@ -114,10 +110,27 @@ theorem binderTxt_mem {b : Nat} (h : (binderRow T L b).asciiTxt ≠ []) (uni : B
   rw [List.mem_flatMap]
   exact ⟨binderRow T L b, binderRow_mem h, by cases uni <;> simp⟩
 
+/-- the `::` of a type annotation -/
+theorem dcolon_steps {d : Nat}
+    (hdc : S.contains [58, 58] = true ∧ tokOfTerminal S [58, 58] = .sym d ∧ ∀ t ∈ S, [58, 58].isPrefixOf t = true → t = [58, 58]) :
+    Steps S [58, 58] [.sym d] (fun _ => True) := by
+  have := steps_symbol (S := S) (w := [58, 58]) (by decide) hdc.1
+  rw [hdc.2.1] at this
+  refine this.mono (fun rest _ => ?_)
+  intro m hm hc
+  have hmem : (([58, 58] ++ rest).take m) ∈ S := by simpa using hc.2
+  have hpre : [58, 58].isPrefixOf (([58, 58] ++ rest).take m) = true := by
+    rw [take_append_gt _ _ m hm]; simp [List.isPrefixOf]
+  have := hdc.2.2 _ hmem hpre
+  have hl := hc.1
+  rw [this] at hl
+  simp at hl hm
+  omega
+
 /-- main induction: the lexer reads the text of `t` as `printSkel t`, and the text begins like a term -/
 theorem lex_term (hT : TextOK T L S) (uni : Bool) : ∀ t : Skel, t.WF T L → t.NamesOK S →
-    Steps S (printText T L uni t) (printSkel T L uni t) Follow ∧ ∀ rest, TextStart T (printText T L uni t ++ rest) := by
-  obtain ⟨h1, hdot, hlp, hrp, hdotT, hif, hthen, helse, hsafeL, hsafeR, hsafeD, _, hbin, hun, hbind⟩ := hT
+    Steps S (printText T L S uni t) (printSkel T L uni t) Follow ∧ ∀ rest, TextStart T (printText T L S uni t ++ rest) := by
+  obtain ⟨h1, hdot, hlp, hrp, hdotT, hif, hthen, helse, hsafeL, hsafeR, hsafeD, _, hbin, hun, hbind, hTy, hdc⟩ := hT
   have wrapL := fun {txt : List Nat} {toks : List Tok} (ht : Steps S txt toks Follow) (hs : ∀ rest, TextStart T (txt ++ rest)) (b : Bool) =>
     lex_wrap (T := T) hlp hrp hsafeL hsafeR ht hs b
   intro t
@@ -142,7 +155,7 @@ theorem lex_term (hT : TextOK T L S) (uni : Bool) : ∀ t : Skel, t.WF T L → t
     refine ⟨?_, ?_⟩
     · exact Steps.append wf.1 (Steps.cons_ws wa.1) (fun rest _ => follow_blank _)
     · intro rest
-      have := wf.2 (32 :: (wrapT (brA T a.cls) (printText T L uni a) ++ rest))
+      have := wf.2 (32 :: (wrapT (brA T a.cls) (printText T L S uni a) ++ rest))
       simpa [printText, List.append_assoc] using this
   | bin o l r ihl ihr =>
     intro hw hn
@@ -158,7 +171,7 @@ theorem lex_term (hT : TextOK T L S) (uni : Bool) : ∀ t : Skel, t.WF T L → t
       have h3 := Steps.append wl.1 (Steps.cons_ws h2) (fun rest _ => follow_blank _)
       simpa [printText, printSkel] using h3
     · intro rest
-      have := wl.2 (32 :: (T.spellTxt uni o ++ 32 :: wrapT (brR T o r.cls) (printText T L uni r)) ++ rest)
+      have := wl.2 (32 :: (T.spellTxt uni o ++ 32 :: wrapT (brR T o r.cls) (printText T L S uni r)) ++ rest)
       simpa [printText, List.append_assoc] using this
   | un o a iha =>
     intro hw hn
@@ -199,7 +212,7 @@ theorem lex_term (hT : TextOK T L S) (uni : Bool) : ∀ t : Skel, t.WF T L → t
           exact Or.inr (Or.inr ⟨rfl, c, _, rfl, hxi.1⟩))
       simpa [printText, printSkel] using h1'
     · intro rest
-      have := ts_binder (T := T) (binderTxt_mem hasc uni) (x ++ 46 :: 32 :: printText T L uni body ++ rest)
+      have := ts_binder (T := T) (binderTxt_mem hasc uni) (x ++ 46 :: 32 :: printText T L S uni body ++ rest)
       simpa [printText, List.append_assoc] using this
   | ite c a b ihc iha ihb =>
     intro hw hn
@@ -217,14 +230,64 @@ theorem lex_term (hT : TextOK T L S) (uni : Bool) : ∀ t : Skel, t.WF T L → t
       have s1 := Steps.append kIf (Steps.cons_ws s2) (fun rest _ => notId_blank _)
       simpa [printText, printSkel] using s1
     · intro rest
-      have : TextStart T (105 :: (102 :: 32 :: (printText T L uni c ++ 32 :: (kwThen ++ 32 :: (printText T L uni a ++ 32 :: (kwElse ++ 32 :: printText T L uni b)))) ++ rest)) :=
+      have : TextStart T (105 :: (102 :: 32 :: (printText T L S uni c ++ 32 :: (kwThen ++ 32 :: (printText T L S uni a ++ 32 :: (kwElse ++ 32 :: printText T L S uni b)))) ++ rest)) :=
         ts_head _ (Or.inl (by decide))
       simpa [printText, kwIf, List.append_assoc] using this
 
+  | ann t ty iht =>
+    intro hw hn
+    have ht := iht hw hn.1
+    have hty := ty_lex hTy uni ty hn.2
+    have hL : Steps S [40] [.lp] (SafeAfter S [40]) := by
+      have := steps_symbol (S := S) (w := [40]) (by decide) hlp
+      simpa [tokOfTerminal] using this
+    have hR : Steps S [41] [.rp] Follow := rp_steps hrp hsafeR
+    have hC : Steps S [58, 58] [.sym L.dcolon] (fun _ => True) := dcolon_steps hdc
+    refine ⟨?_, fun rest => by simpa [printText] using ts_head (T := T) (c := 40) _ (Or.inr (Or.inr rfl))⟩
+    have h4 := Steps.append hty hR (fun rest _ => follow_rp rest)
+    have h3 := Steps.append hC h4 (fun _ _ => trivial)
+    have h2 := Steps.append ht.1 h3 (fun rest _ => follow_colon _)
+    have h1' := Steps.append hL h2 (fun rest _ => safe_beforeTerm hsafeL (by
+      have := ht.2 (([58, 58] ++ (printTyText L.ty S uni ty ++ [41])) ++ rest)
+      simpa [List.append_assoc] using this))
+    simpa [printText, printSkel, List.append_assoc] using h1'
+  | binderT b x ty body ihb =>
+    intro hw hn
+    have hb := ihb hw.2 hn.2.2
+    have hty := ty_lex hTy uni ty hn.2.1
+    have hboth := hbind b hw.1
+    have hasc := (spell_steps (T := T) h1 hdot hboth.1).2
+    have hsp : Steps S (binderTxt T L uni b) [.sym (binderSpell T L uni b)] (AfterSym T false true) := by
+      cases uni
+      · exact (spell_steps h1 hdot hboth.1).1
+      · exact (spell_steps h1 hdot hboth.2).1
+    have hD : Steps S [46, 32] [.dot] (SafeAfter S [46, 32]) := by
+      have := steps_symbol (S := S) (w := [46, 32]) (by decide) hdotT
+      simpa [tokOfTerminal] using this
+    have hC : Steps S [58, 58] [.sym L.dcolon] (fun _ => True) := dcolon_steps hdc
+    obtain ⟨hxn, hxi⟩ := hn.1
+    refine ⟨?_, ?_⟩
+    · have h5 := Steps.append hD hb.1 (fun rest _ => safe_dot hsafeD _)
+      have h4 := Steps.append hty h5 (fun rest _ => follow_dot _)
+      have h3 := Steps.append hC h4 (fun _ _ => trivial)
+      have h2 := Steps.append (steps_name hxn) h3 (fun rest _ => by
+        intro c r hr; simp at hr; rw [← hr.1]; decide)
+      have h1' := Steps.append hsp h2 (fun rest _ => by
+        cases x with
+        | nil => simp [idShaped] at hxi
+        | cons c cs =>
+          simp only [idShaped, Bool.and_eq_true] at hxi
+          exact Or.inr (Or.inr ⟨rfl, c, _, rfl, hxi.1⟩))
+      simpa [printText, printSkel, List.append_assoc] using h1'
+    · intro rest
+      have := ts_binder (T := T) (binderTxt_mem hasc uni)
+        (x ++ 58 :: 58 :: (printTyText L.ty S uni ty ++ 46 :: 32 :: printText T L S uni body) ++ rest)
+      simpa [printText, List.append_assoc] using this
+
 /-- the lexer reads the printed text back as the printed tokens -/
 theorem lex_print_core (hT : TextOK T L S) (uni : Bool) (t : Skel) (hw : t.WF T L) (hn : t.NamesOK S) :
-    lex S (printText T L uni t) = some (printSkel T L uni t) := by
-  have h := (lex_term hT uni t hw hn).1 [] [] ((printText T L uni t).length + 1) (Or.inl rfl) (by simp)
+    lex S (printText T L S uni t) = some (printSkel T L uni t) := by
+  have h := (lex_term hT uni t hw hn).1 [] [] ((printText T L S uni t).length + 1) (Or.inl rfl) (by simp)
   obtain ⟨f', hf, he⟩ := h
   simp only [List.append_nil] at he
   unfold lex
